@@ -15,6 +15,7 @@ ops
   keys <k1> … <k7> <hash160 k1> <hash160 k5>          (hex; the 33-byte keys of ids 1..7)
   content <commitNum> <feerate> <toCs> <toBc> {o|r}:<value>:<hash>:<cltv>:<ripemd160 hex>…
         → canonical transaction rendering | HTLC-tx fields | hex of `ser (canon c)` (or `panic`)
+  resetup <field|same> <value>            → ok / refused (second setup of the ready channel: only the identical setup is accepted)
   restart                                 → ok (the channel is persisted and restored: identity on the setup)
   p2 <ok|err|panic>                       → accept / reject of phase 2 on the current content
   p1 <ok|err|panic> <mutation…>           → accept <csVal> <bcVal> / reject of phase 1 on the mutated canonical tx
@@ -273,6 +274,24 @@ def step (st : St) (toks : List String) : St × String :=
       let st' := { st1 with ranks := cands.map fun p => (p, okeyB env (spkToNat env p)) }
       (st', render st')
     | _, _, _, _, _ => (st, "bad-op")
+  | ["resetup", f, v] =>
+    -- `Node::setup_channel` on a ready channel: `if c.setup != setup { Err } else { Ok }`; the channel keeps its setup
+    match nat? v with
+    | some v =>
+      let s := st.setup
+      let ns : Setup :=
+        if f == "outbound" then { s with outbound := v != 0 }
+        else if f == "hdelay" then { s with holderDelay := v }
+        else if f == "cdelay" then { s with cpDelay := v }
+        else if f == "txid" then { s with fundingTxid := v }
+        else if f == "vout" then { s with fundingVout := v }
+        else if f == "value" then { s with channelValue := v }
+        else if f == "ctype" then { s with ctype := [CType.legacy, .staticRemoteKey, .anchors, .anchorsZeroFee].getD (v % 4) .legacy }
+        else s
+      match resetupReady s ns with
+      | .ok s' => ({ st with setup := s' }, "ok")
+      | .error _ => (st, "refused")
+    | none => (st, "bad-op")
   | ["restart"] =>
     -- persist + restore is the identity on the setup (C04_restart_same_sig)
     ({ st with setup := restoreChannel (persistChannel st.setup) }, "ok")
